@@ -111,6 +111,14 @@ struct Runner
     id = trace_id;
     q = std::make_unique<Q>(static_cast<T>(capacity), quill::HugePagesPolicy::Never, static_cast<T>(percent));
     cap = static_cast<uint64_t>(q->_capacity);
+    {
+      uint64_t p2 = 1;
+      while (p2 < capacity) { p2 <<= 1; }
+      if (cap != p2 || static_cast<uint64_t>(q->capacity()) != p2)
+      {
+        oracle("capacity-not-least-power-of-two requested=" + std::to_string(capacity) + " got=" + std::to_string(cap));
+      }
+    }
     M = (sizeof(T) >= 8) ? 0 : (1ull << (8 * sizeof(T)));
     base = q->_storage;
     wpos_loc = q->_atomic_writer_pos.id();
@@ -497,6 +505,16 @@ static void print_tail()
   std::cout << " oracle_violations=" << g_oracle_violations << "\n";
 }
 
+// a request that is not a power of two is recorded in the trace id ("…q1500") so that a replay constructs the same queue
+static std::string req_suffix(uint64_t rq) { return (rq & (rq - 1)) ? "q" + std::to_string(rq) : std::string{}; }
+static uint64_t requested_of(std::string const& id, uint64_t cap)
+{
+  auto const k = id.rfind('q');
+  if (k == std::string::npos || k + 1 >= id.size()) { return cap; }
+  for (size_t j = k + 1; j < id.size(); ++j) { if (id[j] < '0' || id[j] > '9') { return cap; } }
+  return std::stoull(id.substr(k + 1));
+}
+
 int main(int argc, char** argv)
 {
   std::ios::sync_with_stdio(false);
@@ -519,8 +537,10 @@ int main(int argc, char** argv)
       case 0:
       {
         Runner<uint8_t> r;
-        uint64_t const caps[] = {8, 16, 32, 64, 128};
-        r.init(tid + "u8", caps[rng.below(5)], pct, shift, orders, drain);
+        // requested capacities; the queue rounds a request up to a power of two (12 -> 16, 100 -> 128)
+        uint64_t const caps[] = {8, 16, 32, 64, 128, 12, 24, 100};
+        uint64_t const rq = caps[rng.below(8)];
+        r.init(tid + "u8" + req_suffix(rq), rq, pct, shift, orders, drain);
         r.generate(rng, nops);
         r.flush_oracles();
         break;
@@ -528,8 +548,9 @@ int main(int argc, char** argv)
       case 1:
       {
         Runner<uint16_t> r;
-        uint64_t const caps[] = {16, 64, 256, 1024, 4096, 32768};
-        r.init(tid + "u16", caps[rng.below(6)], pct, shift, orders, drain);
+        uint64_t const caps[] = {16, 64, 256, 1024, 4096, 32768, 100, 1500, 3000};
+        uint64_t const rq = caps[rng.below(9)];
+        r.init(tid + "u16" + req_suffix(rq), rq, pct, shift, orders, drain);
         r.generate(rng, nops);
         r.flush_oracles();
         break;
@@ -537,8 +558,9 @@ int main(int argc, char** argv)
       default:
       {
         Runner<size_t> r;
-        uint64_t const caps[] = {16, 64, 128, 1024, 4096};
-        r.init(tid + "u64", caps[rng.below(5)], pct, shift, orders, drain);
+        uint64_t const caps[] = {16, 64, 128, 1024, 4096, 24, 100, 1500, 3000};
+        uint64_t const rq = caps[rng.below(9)];
+        r.init(tid + "u64" + req_suffix(rq), rq, pct, shift, orders, drain);
         r.generate(rng, nops);
         r.flush_oracles();
         break;
@@ -580,8 +602,9 @@ int main(int argc, char** argv)
         if (r64) { r64->flush_oracles(); }
         r8.reset();
         r64.reset();
-        if (small) { r8 = std::make_unique<Runner<uint8_t>>(); r8->init(w[1], cap, pct, false, orders, w[9] == "1"); }
-        else { r64 = std::make_unique<Runner<size_t>>(); r64->init(w[1], cap, pct, false, orders, w[9] == "1"); }
+        uint64_t const rq = requested_of(w[1], cap);
+        if (small) { r8 = std::make_unique<Runner<uint8_t>>(); r8->init(w[1], rq, pct, false, orders, w[9] == "1"); }
+        else { r64 = std::make_unique<Runner<size_t>>(); r64->init(w[1], rq, pct, false, orders, w[9] == "1"); }
         continue;
       }
       if (r8) { r8->replay_op(w); }
